@@ -9,6 +9,7 @@ import (
 
 	"verifharness/engine"
 	"verifharness/gen"
+	"verifharness/model"
 )
 
 // C14: changing the maximum size on open. prior history x (new max | unbounded, prealloc) x further
@@ -54,12 +55,16 @@ func probeCapacity(e *engine.Engine) int {
 	return n
 }
 
+// c14Model: the Coq model process (K1: the data end marker after a limit update vs. grow_data_end)
+var c14Model *model.Client
+
 func c14Case(rep *Report, cfg engine.Config, prior []engine.Op, re engine.Op, further []engine.Op, hseed int64) {
 	ops := append(append(append([]engine.Op(nil), prior...), re), further...)
 	var capBefore, capAfter int
 	var oldMaxPages, newMaxPages, extentBefore int64
 	var livePlusMeta int64
 	var extra []string
+	var dataEndBefore, metaEndBefore uint64
 	setup := func(e *engine.Engine) {
 		capBefore, capAfter, oldMaxPages, newMaxPages, extentBefore, livePlusMeta, extra = 0, 0, 0, -1, 0, 0, nil
 		e.BeforeOp = func(e *engine.Engine, op engine.Op) {
@@ -73,12 +78,23 @@ func c14Case(rep *Report, cfg engine.Config, prior []engine.Op, re engine.Op, fu
 					end = s.MetaEnd
 				}
 				livePlusMeta = int64(end)
+				dataEndBefore, metaEndBefore = s.DataEnd, s.MetaEnd
 			}
 		}
 		e.AfterOp = func(e *engine.Engine, op engine.Op, res engine.Result) {
 			if op.Kind == "reopen" && op.Flags != 0 && !res.Skipped && res.Err == "" && e.File != nil {
 				s := txfile.VerifSnapshot(e.File)
 				newMaxPages = int64(s.MaxPages)
+				// K1: the limit grows or is removed: the committed data end marker is the model's
+				if c14Model != nil && oldMaxPages > 0 && (newMaxPages == 0 || newMaxPages > oldMaxPages) {
+					mod := c14Model.Ask(fmt.Sprintf("growend %d %d %d %d", oldMaxPages, newMaxPages, dataEndBefore, metaEndBefore))
+					if impl := fmt.Sprint(s.DataEnd); impl != mod {
+						rep.violate(Violation{Kind: "correspondence", Sig: "grow-data-end",
+							Detail: fmt.Sprintf("limit %d -> %d pages with data end %d, meta end %d: data end marker after the update %s, model grow_data_end %s", oldMaxPages, newMaxPages, dataEndBefore, metaEndBefore, impl, mod),
+							Replay: histReplay{Config: cfg, Ops: ops, Seed: hseed, Mode: "c14"}})
+					}
+					rep.count("K1:grow-data-end", 1)
+				}
 				// usable right away, without blocking
 				if !watchdog(5e9, func() {
 					tx, err := e.File.BeginReadonly()
@@ -163,6 +179,13 @@ func init() {
 			runOracleHistory(rep, rp.Config, rp.Ops, rp.Seed, rp.Mode, nil, nil)
 			return rep.finish(f)
 		}
+		if m, err := model.Start(); err == nil {
+			c14Model = m
+			defer m.Close()
+		} else {
+			fmt.Fprintln(os.Stderr, err)
+			return 2
+		}
 		r := rand.New(rand.NewSource(f.seed))
 		n := 120
 		if f.tier == "thorough" {
@@ -194,6 +217,25 @@ func init() {
 				re.Flags |= uint64(txfile.FlagUnboundMaxSize)
 			}
 			shrunkFurther := 0
+			if i%8 == 6 {
+				// shrink below the extent of the file, then raise the limit to a value that is still below the extent
+				// (D20, D21): every live page stays readable and writable, with and without preallocation
+				live := 110 + hr.Intn(120)
+				cfg = engine.Config{PageSize: 1024, MaxSize: []uint64{0, 512 * 1024}[hr.Intn(2)], InitMetaArea: uint32(hr.Intn(2) * 4)}
+				prior = []engine.Op{{Kind: "begin"}, {Kind: "alloc", N: live}}
+				for k := 0; k < 16; k++ {
+					prior = append(prior, engine.Op{Kind: "setfull", P: live - 1 - k*5, Seed: 1 + hr.Intn(1000)})
+				}
+				prior = append(prior, engine.Op{Kind: "setroot", P: live - 1}, engine.Op{Kind: "commit"},
+					engine.Op{Kind: "reopen", Flags: uint64(txfile.FlagUpdMaxSize), MaxSize: 64 * 1024, Prealloc: hr.Intn(2) == 0}, engine.Op{Kind: "verify"})
+				if hr.Intn(2) == 0 {
+					// overwrite pages / mapping pages behind the data area before the limit is raised
+					prior = append(prior, engine.Op{Kind: "begin", Overflow: true, WALLimit: 1000},
+						engine.Op{Kind: "setfull", P: hr.Intn(live), Seed: 7}, engine.Op{Kind: "setfull", P: hr.Intn(live), Seed: 8}, engine.Op{Kind: "commit"})
+				}
+				re = engine.Op{Kind: "reopen", Flags: uint64(txfile.FlagUpdMaxSize), MaxSize: uint64(70+hr.Intn(live-70)) * 1024, Prealloc: hr.Intn(2) == 0}
+				rep.count("scenario:shrink-then-grow-to-a-limit-below-the-extent", 1)
+			}
 			if i%4 == 3 {
 				// an unbounded file that already extends beyond the limit it is given now
 				cfg = engine.Config{PageSize: 1024, MaxSize: 0, InitMetaArea: uint32(hr.Intn(3) * 4)}
